@@ -108,7 +108,8 @@ impl<'r> SrcGen<'r> {
         let w_prog = if self.progs.is_empty() { 0 } else { 4 };
         let w_scope = if self.scope.is_empty() { 0 } else { 6 };
         let w_clock = if self.clock { 3 } else { 0 };
-        match self.r.weighted(&[3, 2, 5, w_prog, w_scope, 2, 3, w_clock]) {
+        match self.r.weighted(&[3, 2, 5, w_prog, w_scope, 2, 3, w_clock, 3]) {
+            8 => self.builtin(),
             0 => V::Int(small_int(self.r)).render(),
             1 => V::Str(word(self.r)).render(),
             2 => self.r.pick(&VARS).to_string(),
@@ -124,6 +125,56 @@ impl<'r> SrcGen<'r> {
                 map_value(self.r, n, strs).render()
             }
             _ => self.r.pick(&["now()", "timestamp()", "now().getFullYear()", "string(now())"]).to_string(),
+        }
+    }
+
+    /// one of 48 distinct regular expressions (written without backslashes and quotes)
+    fn pattern(&mut self) -> String {
+        const BASE: [&str; 8] = ["a.c", "^h", "l+", "[a-k]1", "z{2}", "o$", "(a)(b)", "[0-9]"];
+        const SUF: [&str; 6] = ["", "?", "*", "|x", "|yy", ".*"];
+        format!("{}{}", self.r.pick(&BASE), self.r.pick(&SUF))
+    }
+
+    fn subject(&mut self) -> String {
+        match self.r.weighted(&[3, 2]) {
+            0 => V::Str(self.r.pick(&["hello", "a b", "k1zz", "abc ab", "zz top 10", ""]).to_string()).render(),
+            _ => self.r.pick(&VARS).to_string(),
+        }
+    }
+
+    /// calls of built-in functions on small operands: any of them could grow a cache or other
+    /// carried state (C15/C16 own what they compute; here only history-independence is at stake)
+    fn builtin(&mut self) -> String {
+        let s = self.subject();
+        match self.r.usize(14) {
+            0 => format!("{}.matches('{}')", s, self.pattern()),
+            1 => format!("{}.matchCaptures('{}')", s, self.pattern()),
+            2 => format!("{}.matchReplace('{}', 'Z')", s, self.pattern()),
+            3 => format!("{}.matchReplaceOnce('{}', 'Z')", s, self.pattern()),
+            4 => {
+                // many patterns in one evaluation, the first one again at the end
+                let n = 6 + self.r.usize(20);
+                let mut ps: Vec<String> = vec![];
+                while ps.len() < n {
+                    let p = self.pattern();
+                    if !ps.contains(&p) {
+                        ps.push(p);
+                    }
+                }
+                ps.push(ps[0].clone());
+                let list = ps.iter().map(|p| format!("'{}'", p)).collect::<Vec<_>>().join(", ");
+                let f = *self.r.pick(&["matches(p)", "matchReplace(p, '-')", "matchCaptures(p)"]);
+                format!("[{}].map(p, {}.{})", list, s, f)
+            }
+            5 => format!("{}.contains('a')", s),
+            6 => format!("{}.toUpper()", s),
+            7 => format!("{}.split(' ')", s),
+            8 => format!("{}.replace('a', 'bb')", s),
+            9 => format!("sort([3, {}, 2])", small_int(self.r)),
+            10 => format!("max({}, {})", small_int(self.r), small_int(self.r)),
+            11 => format!("abs({})", V::Int(small_int(self.r)).render()),
+            12 => "timestamp(86400).getDayOfWeek()".to_string(),
+            _ => format!("{}.startsWithI('H')", s),
         }
     }
 
@@ -517,9 +568,13 @@ fn gen11(seed: u64) -> WorldCase {
             13 => {
                 // a compile that fails (on a context under a name nothing uses, or without a
                 // context): it must leave nothing behind on this thread or in this context
-                let c = st.ctxs[r.usize(st.ctxs.len())].0;
-                let src = r.pick(&["1 +", "(", "[1, 2", "x0 ? 1", "'abc", "1 2", "[1].map(v, )", "f'{'"]).to_string();
-                ops.push(Op { t, k: OpK::AddBad { c, src, free: r.chance(1, 2) } });
+                let ci = r.usize(st.ctxs.len());
+                let c = st.ctxs[ci].0;
+                let src = r.pick(&["1 +", "(", "[1, 2", "x0 ? 1", "'abc", "1 2", "[1].map(v v)", "{'a': }"]).to_string();
+                // ... or under the name of a stored program, which must survive the failed add
+                let (_, names) = &st.ctxs[ci];
+                let over = if !names.is_empty() && r.chance(1, 3) { Some(r.pick(names).clone()) } else { None };
+                ops.push(Op { t, k: OpK::AddBad { c, src, free: over.is_none() && r.chance(1, 2), over } });
             }
             _ => {
                 // a program that runs into the depth limit (one reference per program, so the
@@ -1337,11 +1392,14 @@ fn build12(sc: &Sc, seed: u64) -> WorldCase {
             label = "json-binding-equals-direct".into();
             let mut vals = BTreeMap::new();
             for n in ["x0", "x1", "x2"] {
-                let mut v = match r.below(6) {
+                let mut v = match r.below(8) {
                     // integers beyond 2^53 and the ends of the range survive JSON exactly
                     0 => V::Int(*r.pick(&[9_007_199_254_740_993i64, -9_007_199_254_740_993, i64::MAX, i64::MIN + 1, 4_294_967_296, -2_147_483_649])),
                     1 => V::f(*r.pick(&[0.5f64, -1.25, 1e300, 2.5e-10, 1234.0625])),
                     2 => V::map(vec![("n", V::Map(BTreeMap::new())), ("l", V::List(vec![V::Null, V::Bool(false), V::s("")])), ("big", V::Int(9_007_199_254_740_993))]),
+                    // unsigned values above the int range stay unsigned, at top level and nested
+                    3 => V::UInt(*r.pick(&[u64::MAX, 9_223_372_036_854_775_808, 18_446_744_073_709_551_557])),
+                    4 => V::List(vec![V::Int(1), V::UInt(u64::MAX), V::map(vec![("u", V::UInt(9_223_372_036_854_775_809)), ("z", V::Null)])]),
                     _ => value(&mut r, 2),
                 };
                 if !super::json_safe(&v) {
